@@ -53,6 +53,9 @@ rec_spawnphase(struct stageinfo *phase, int *fd, char *input, char *output, bool
 	return osm_stage_start(&phase->pid, fd, last);
 }
 
+#ifndef NPREV
+#define NPREV 0              /* temporaries left by earlier inputs of the same invocation (DRV.buildobj.prevtmp: 1) */
+#endif
 #define LINKING      ((g_stages0 >> LINK & 1) != 0)
 #define NRUN         popcount5(PRELINK(g_stages0))                 /* stages that must be spawned */
 #define STAGE_OF(k)  kth_stage(PRELINK(g_stages0), (k))
@@ -73,7 +76,7 @@ rec_spawnphase(struct stageinfo *phase, int *fd, char *input, char *output, bool
 	X(g_namedash == (g_name0[0] == '-' && g_name0[1] == 0)) \
 	/* invariant of main's loop (and a postcondition below): no stage process is pending */ \
 	X(ZEROPIDS) \
-	X(osm.nattempt == 0 && osm.spawned == 0 && osm.nfail == 0 && osm.ntmp == 0 && osm.nunlink == 0 && osm.fd_open == 0 && osm.exited == 0) \
+	X(osm.nattempt == 0 && osm.spawned == 0 && osm.nfail == 0 && osm.ntmp == NPREV && osm.nunlink == 0 && osm.fd_open == 0 && osm.exited == 0) \
 	X(g_errno == &errno) \
 	X(g_k >= 0 && g_k < NSTAGES)
 
@@ -89,7 +92,7 @@ rec_spawnphase(struct stageinfo *phase, int *fd, char *input, char *output, bool
 	X(IMP(RUNS, osm_nlive() == 0)) \
 	X(IMP(RUNS, input->stages == 0)) \
 	/* input->name is the produced file */ \
-	X(IMP(RUNS && LINKING, osm.ntmp == 1 && input->name == osm.tmp[0] && osm_tmp_left() == 1)) \
+	X(IMP(RUNS && LINKING, osm.ntmp == NPREV + 1 && input->name == osm.tmp[NPREV] && osm_tmp_left() == NPREV + 1)) \
 	X(IMP(RUNS && NAMED_OUT, input->name == g_out)) \
 	X(IMP(RUNS && TO_STDOUT, input->name == 0)) \
 	X(IMP(RUNS && !LINKING && !NAMED_OUT && !TO_STDOUT, input->name != 0 && input->name != g_name0)) \
@@ -118,7 +121,7 @@ osm_at_exit(int status)
 	__CPROVER_assert(osm_nlive() == 0, "EXIT no child is still live (all reaped)");
 	__CPROVER_assert(osm_term_missing() == 0, "EXIT every stage that was live at the first failure was sent SIGTERM");
 	__CPROVER_assert(osm.badkill == 0, "EXIT kill(SIGTERM) went to live stage pids only");
-	__CPROVER_assert(osm_tmp_left() == 0, "EXIT the mkstemp temporary was unlinked");
+	__CPROVER_assert(osm_tmp_left() == 0, "EXIT no temporary object of this invocation is left behind");
 	__CPROVER_assert(IMP(NAMED_OUT && osm.nspawn > 0, osm_was_unlinked(g_out)), "EXIT the -o output file was unlinked");
 	__CPROVER_assert(IMP(TO_STDOUT, osm.nunlink == 0), "EXIT nothing is unlinked when the output is standard output");
 	__CPROVER_assert(IMP(!TO_STDOUT && osm.nspawn > 0, osm.nunlink == 1), "EXIT exactly the output file was unlinked");
@@ -135,6 +138,7 @@ void
 harness(void)
 {
 	/* DFCC makes every static object nondeterministic at the start: all inputs are built here */
+	char prev_tmp[] = "/tmp/cproc-a12345";
 	char name_path[] = "d/t.c", name_dash[] = "-", out_path[] = "o.x", out_dash[] = "-";
 	struct input in;
 	struct input *input = &in;
@@ -168,6 +172,9 @@ harness(void)
 	osm_tape.nunknown = in_nunknown;
 	osm_tape.mkstemp_err = in_mk;
 	osm_reset();
+#if NPREV
+	osm_pretend_tmp(prev_tmp);      /* an earlier input was built successfully: its object is the POST state of that call */
+#endif
 	for (i = 0; i < NSTAGES; ++i)
 		stages[i].pid = 0;
 
